@@ -1,4 +1,4 @@
-// eng_cache.cpp — engine "cache": Cache alone under ADD / ADV / LATE / LOOKUP
+// eng_cache.cpp — engine "cache": Cache alone under ADD / ADV / ADVB / LATE / LOOKUP
 #include "hx.h"
 
 #include <qmdnsengine/cache.h>
@@ -31,6 +31,10 @@ void engineCache(const std::vector<std::string> &, const std::vector<std::string
         } else if (w[0] == "ADV" && w.size() == 2) {
             int64_t t = std::stoll(w[1]);
             if (t >= vt::g_now) vt::dispatcher()->advanceTo(t);
+        } else if (w[0] == "ADVB" && w.size() == 2) {
+            // clock ends at t with a timer due exactly at t still pending
+            int64_t t = std::stoll(w[1]);
+            if (t > vt::g_now) vt::dispatcher()->advanceTo(t, true);
         } else if (w[0] == "LATE" && w.size() == 2) {
             int64_t t = std::stoll(w[1]);
             if (t >= vt::g_now) vt::dispatcher()->lateTo(t);
